@@ -23,6 +23,48 @@ CHECKS = {
         "Trusted: decision table, CPython. Filters pure; only complete two-ended links.",
         "DESIGN.md 4/C09",
     ),
+    "C06": (
+        "reachability oracle (independent closure over the real neighbors()) evaluated on bft/dft_recursive/dft_iterative and generator forms, under a logical expansion bound",
+        "Runtime monitor: for every generated (graph, universe, start, direction, unknown mode, ff_via, ff_result) the three real traversals and their generator forms run under an expansion bound and are compared with an independent closure: no repeats, start first, exactly the reachable in-universe set, agreement as sets, generator==list, ff_result only removes. All digraphs on 3 (4) vertices exhaustively plus families and random mixed multigraphs.",
+        "Trusted: closure oracle in egverif/oracles.py; 'followed' is defined by the real neighbors() (pinned by C04). start in universe or universe None; filters pure.",
+        "DESIGN.md 4/C06",
+    ),
+    "C07": (
+        "reference-traversal oracles (level-synchronous BFS, explicit-iterator pre-order DFS, reversed-neighbour pre-order = explicit stack) compared element-wise with the real outputs; repeat and rebuild determinism monitors",
+        "Runtime monitor: the ordered output of each real traversal is compared element by element with an independently written reference on every generated case; hop distances along bft output are asserted non-decreasing; each call is repeated and the graph rebuilt. The run counts graphs on which all three orders differ so that order is really discriminated.",
+        "Trusted: reference traversals in egverif/oracles.py. Neighbour order is taken from the real neighbors().",
+        "DESIGN.md 4/C07",
+    ),
+    "C08": (
+        "definitional oracle: first vertex of the corresponding real traversal with hasattr and ==, compared by identity with the search result",
+        "Runtime monitor: bfs/dfs_recursive/dfs_iterative results are compared (identity) with the first match in bft/dft_recursive/dft_iterative order on graphs with duplicate values, equal-but-not-identical sought values, absent values, missing attributes and falsy vertex classes.",
+        "Trusted: the real traversal order (pinned by C07); == on attribute values is total and pure.",
+        "DESIGN.md 4/C08",
+    ),
+    "C14": (
+        "parse-back oracle: declaration headers and relation lines of the produced PlantUML text compared as multisets with the graph and option table",
+        "Runtime monitor: render_to_plantuml_src output is parsed (headers, relation lines) for 5 option tables x families/random multigraphs and compared with what the observed graph implies: one declaration per member with nearest-configured-class options, exactly one v1-to-v2 relation line per internal link with the configured arrow ends, no line for a non-existent link, None for an empty universe.",
+        "Trusted: the two regexes and the MRO lookup in egverif/props/c14.py. Titles unique and whitespace-free; links leaving the universe may be drawn or not.",
+        "DESIGN.md 4/C14",
+    ),
+    "C15": (
+        "read-back oracle on the returned pyvis Network (get_nodes/get_node/get_edges) against the observed graph",
+        "Runtime monitor: node ids/labels, arrowed-edge counts per ordered member pair, arrow-less edges backed by a non-directed link, and 'every internal link leaves its node pair joined' are checked on every generated universe (self-loops, parallel/mixed edges, links leaving the universe).",
+        "Trusted: pyvis 0.3.2 accessors; only complete two-ended links.",
+        "DESIGN.md 4/C15",
+    ),
+    "C16": (
+        "parse-back oracle: each output line rebuilt from rfunc/repr and the real neighbors() and compared exactly",
+        "Runtime monitor: basic_render output is split into lines and compared line by line (member order or sort-key order, neighbour renderings joined by ', ') for 3 rfuncs x 5 sort keys on families and random multigraphs incl. isolated members and neighbours outside the universe.",
+        "Trusted: 10-line expected-line builder; graphs hold only directed/undirected edges.",
+        "DESIGN.md 4/C16",
+    ),
+    "C20": (
+        "postcondition monitor on every randgraph() result over a full parameter grid x seeds plus scripted hostile RNG streams; seed-replay reproducibility monitor",
+        "Runtime monitor: every call of the grid (count 1..12/60 x 4 classes x 7 connectivities x ensurelink x seeds, plus always-min/always-max/alternating scripted random.randint/sample) must return a universe with exactly count vertices i=0..count-1, only links of the requested class with both ends inside, every vertex a v1 when ensurelink, and identical adjacency when re-seeded.",
+        "Trusted: the postcondition code. count>=1, connectivity in [0,1] or default.",
+        "DESIGN.md 4/C20",
+    ),
 }
 
 NOT_YET = "check not built yet (work in progress; see DESIGN.md section 4)"
